@@ -684,7 +684,7 @@ func c13RestFamilies(thorough bool) []*c13Family {
 
 	// --- syntax check
 	fams = append(fams, &c13Family{Route: "rest-syntax", Fields: []c13Field{
-		c13F("content", "valid", []string{"valid"}, "none", "empty", "garbage", "json", "1MiB-a", "1MiB-open-paren", "1MiB-open-brace", "deep-class-nesting", "invalid-utf8", "nul-bytes", "unterminated-string", "unterminated-comment", "only-keyword", "huge-number", "bom", "crlf", "10000-classes", "long-identifier"),
+		c13F("content", "valid", []string{"valid"}, "none", "empty", "garbage", "json", "1MiB-a", "1MiB-open-paren", "1MiB-open-brace", "deep-class-nesting", "invalid-utf8", "nul-bytes", "unterminated-string", "unterminated-comment", "only-keyword", "huge-number", "bom", "crlf", "10000-classes", "long-identifier", "cyclic-subjectset-type-traversed", "mutually-cyclic-subjectset-types", "self-referential-permission", "forward-references"),
 		c13F("query", "none", []string{"none", "unknown-param"}, c13ExtraAll...),
 	}, Build: func(ch map[string]string) *c13Req {
 		return c13Rest(apih.Syntax, "POST", c13Target(apih.RouteSyntax, c13QExtra(ch["query"])), c13OPLContent(ch["content"]))
@@ -804,6 +804,36 @@ func c13OPLContent(choice string) []byte {
 		return []byte(strings.ReplaceAll(valid, "\n", "\r\n"))
 	case "10000-classes":
 		return []byte(strings.Repeat("class A implements Namespace {}\n", 10000))
+	case "cyclic-subjectset-type-traversed":
+		// nested groups: the members relation contains subject sets of itself, and a permission traverses it
+		return []byte(`import { Namespace, SubjectSet, Context } from "@ory/keto-namespace-types"
+class User implements Namespace {}
+class Group implements Namespace {
+  related: { members: (User | SubjectSet<Group, "members">)[] }
+  permits = { view: (ctx: Context): boolean => this.related.members.traverse((m) => m.permits.view(ctx)) }
+}`)
+	case "mutually-cyclic-subjectset-types":
+		return []byte(`import { Namespace, SubjectSet, Context } from "@ory/keto-namespace-types"
+class A implements Namespace {
+  related: { r: SubjectSet<B, "s">[] }
+  permits = { p: (ctx: Context): boolean => this.related.r.traverse((x) => x.related.s.includes(ctx.subject)) }
+}
+class B implements Namespace {
+  related: { s: SubjectSet<A, "r">[] }
+  permits = { p: (ctx: Context): boolean => this.related.s.traverse((x) => x.permits.p(ctx)) }
+}`)
+	case "self-referential-permission":
+		return []byte(`import { Namespace, Context } from "@ory/keto-namespace-types"
+class A implements Namespace {
+  related: { r: A[] }
+  permits = { p: (ctx: Context): boolean => this.related.r.includes(ctx.subject) && !this.permits.p(ctx) }
+}`)
+	case "forward-references":
+		return []byte(`import { Namespace, Context } from "@ory/keto-namespace-types"
+class A implements Namespace {
+  permits = { p: (ctx: Context): boolean => this.permits.q(ctx) || this.related.r.includes(ctx.subject), q: (ctx: Context): boolean => this.related.r.traverse((x) => x.permits.p(ctx)) }
+  related: { r: A[] }
+}`)
 	case "long-identifier":
 		return []byte("class " + c13Big + " implements Namespace {}")
 	}
